@@ -206,7 +206,19 @@ def _run_unit(args):
         acc.violation("timeout", "timeout", case, f"unit {idx} exceeded {_UNIT_TIMEOUT}s")
     finally:
         signal.alarm(0)
+    for v in acc.viol:
+        v["unit"] = idx
     return idx, acc
+
+
+def _recheck_case(case, clause):
+    a2 = Acc()
+    try:
+        with quiet():
+            _MOD.check_case(case, a2)
+        return any(x["clause"] == clause for x in a2.viol)
+    except Exception:
+        return clause == "unexpected-exception"
 
 
 def run_units(mod, units, nproc=None):
@@ -219,7 +231,7 @@ def run_units(mod, units, nproc=None):
         res = [_run_unit(x) for x in enumerate(units)]
     else:
         ctx = mp.get_context("fork")
-        with ctx.Pool(min(nproc, len(units))) as pool:
+        with ctx.Pool(min(nproc, len(units)), maxtasksperchild=1) as pool:  # every unit starts from the parent's clean state
             res = pool.map(_run_unit, list(enumerate(units)), chunksize=1)
     for _, acc in sorted(res, key=lambda r: r[0]):
         total.merge(acc)
@@ -273,6 +285,7 @@ def write_replay(pid, v, cls):
         "class": cls,
         "case": v["case"],
         "detail": v["detail"],
+        "history_unit": v.get("history_unit"),
         "repo_head": repo_head(),
     }
     path = os.path.join(d, jhash([pid, v["clause"], v["case"]]) + ".json")
@@ -365,20 +378,29 @@ def run_check(pid, tier, seed):
         with open(os.environ["FMC_DUMP"], "w") as f:
             json.dump([dict(v, cls=c) for v, c in real], f, default=str)
 
-    # a violation is reported only if it reproduces in this (reporting) process
+    # a violation is reported only if it reproduces: first alone in a fresh forked process, then - for
+    # history-dependent failures - by replaying its whole unit in another fresh process
     confirmed = []
+    global _MOD
+    _MOD = mod
+    ctx = mp.get_context("fork")
     for v, cls in real[:40]:
-        a2 = Acc()
-        try:
-            with quiet():
-                mod.check_case(v["case"], a2)
-            again = any(x["clause"] == v["clause"] for x in a2.viol)
-        except Exception:
-            again = v["clause"] == "unexpected-exception"
-        if again or v["clause"] == "timeout" or getattr(mod, "NO_RECHECK", False):
+        if v["clause"] == "timeout" or getattr(mod, "NO_RECHECK", False):
+            confirmed.append((v, cls))
+            continue
+        with ctx.Pool(1) as pool:
+            again = pool.apply(_recheck_case, (v["case"], v["clause"]))
+        if not again and "unit" in v:
+            with ctx.Pool(1) as pool:
+                _, a3 = pool.apply(_run_unit, ((v["unit"], units[v["unit"]]),))
+            if any(x["clause"] == v["clause"] and x["case"] == v["case"] for x in a3.viol):
+                again = True
+                v["history_unit"] = units[v["unit"]]
+                v["detail"] += " [history-dependent: reproduces only after the earlier cases of its unit]"
+        if again:
             confirmed.append((v, cls))
         else:
-            print(f"HARNESS-ERROR: violation did not reproduce in reporting process: {v['clause']} {v['case']!r}")
+            print(f"HARNESS-ERROR: violation did not reproduce in a fresh process: {v['clause']} {v['case']!r}")
             write_evidence(pid, tier, seed, acc, mod, time.time() - t0, len(real), known, extra)
             return 2
 
@@ -413,6 +435,15 @@ def replay(path):
             mod.check_case(rec["case"], acc)
     except Exception as e:
         acc.violation("unexpected-exception", exc_sig(e), rec["case"], repr(e))
+    if rec.get("history_unit") is not None:
+        global _MOD
+        _MOD = mod
+        acc0 = acc
+        ctx = mp.get_context("fork")
+        with ctx.Pool(1) as pool:
+            _, acc = pool.apply(_run_unit, ((0, rec["history_unit"]),))
+        acc.viol += acc0.viol
+        acc.viol = [v for v in acc.viol if v["case"] == rec["case"]]
     print(json.dumps({"case": rec["case"], "violations": acc.viol}, indent=1, default=str)[:4000])
     if hasattr(mod, "snippet"):
         print("---- standalone reproduction ----")
